@@ -1,14 +1,31 @@
 (** C11 — once reopened, contents change only through new writes.
 
-    Partial.  The full statement (reads after any maintenance schedule on a recovered store
-    equal the reads right after recovery) is REFUTED on the current tree: value-log GC writes a
-    live old version of a key back into the newest memtable and the versioned lookup (known
-    finding C02-F4) then returns it instead of a newer, already flushed version
-    ([C11_stable_refuted]).  Proved: schedules without GC (rotation, flushes, the L0 move) keep
-    every read ([C11_stable_partial]); the model treats flushes and the move as order-preserving
-    relabellings of the sources, which is C01's maintenance theorem.  Not proved: GC steps whose
-    write-backs are all the visible records of their keys ([maint_safe], the class the
-    correspondence uses to recognise the finding). *)
+    Partial.  Model: [recover], [get] (LSM.Get as repaired by 2f52ea0: the greatest version
+    <= the requested one over every source, the first source wins ties) and the maintenance
+    steps [maint_step] of Model/Recovery.v; value-log GC is [gc_file] (vlog_gc.go:rewrite as
+    repaired by fixes/C11-gc-live-pointer-equality.md: only the record the LSM tree points
+    at is live).
+
+    Proved, for every recovered store and every schedule:
+    - [C11_stable_partial]: schedules without GC (rotation, flushes, the L0 move) keep every
+      read (flushes and the move are order-preserving relabellings of the sources in the
+      model, which is C01's maintenance theorem);
+    - [C11_gc_writes_back_referenced_only]: every record a GC step writes back is the target
+      of the value pointer of a non-tombstone record of the store with the same key — bytes no
+      logged record refers to (the leftovers of a request that crashed between its value-log
+      write and the WAL) are never written back;
+    - [C11_gc_without_writeback_keeps_sources]: a GC step that writes nothing back leaves the
+      sources untouched (it only deletes the file).
+    Not proved (correspondence only: forced GC of every sealed file at every crash point, 0
+    violations): that a GC step with write-backs keeps every read (the written-back copy ties
+    with the record it copies and wins as the newest source), and that a deleted file is not
+    the target of a visible pointer.  For plain (non-transactional) keys the concurrent case
+    — a client overwrite between GC's liveness decision and its write-back — is known finding
+    C08-F12 and outside C11's sequential maintenance schedules.
+
+    The two former refutations are now examples of stability: F4 through GC ([C11_gc_example],
+    repaired at the root by 2f52ea0) and the lost write resurrected by GC
+    ([C11_lost_write_example], repaired here). *)
 From Coq Require Import List NArith Bool.
 From NoKV Require Import Model.Fs Model.Recovery Spec.CrashSpec Proofs.CrashProofs.
 Import ListNotations.
@@ -19,14 +36,38 @@ Theorem C11_stable_partial : forall ms s k,
 Proof. exact maint_no_gc_stable. Qed.
 Print Assumptions C11_stable_partial.
 
-Theorem C11_stable_refuted :
-  exists sync seg nb w ms k,
-    let s := recover (crash (exec_all (compile sync w) (init seg nb))) in
-    get (maint_all ms s) k <> get s k.
-Proof. exact c11_refuted. Qed.
-Print Assumptions C11_stable_refuted.
+Theorem C11_gc_writes_back_referenced_only : forall s b f vrs vr,
+  fget pair_eqb (b, f) (s_vlog s) = Some vrs ->
+  In vr (gc_scan s b f 0 vrs) ->
+  exists src r j,
+    In src (s_src s) /\ In r src /\ r_key r = v_key vr /\ r_ver r <= v_ver vr /\ r_del r = false /\
+    r_ptr r = Some {| p_b := b; p_f := f; p_slot := N.of_nat j |} /\ nth_error vrs j = Some vr.
+Proof. exact gc_writes_back_referenced. Qed.
+Print Assumptions C11_gc_writes_back_referenced_only.
 
-(** non-vacuity of the partial theorem on the recovered store of the refutation *)
+Theorem C11_gc_without_writeback_keeps_sources : forall s b f vrs,
+  fget pair_eqb (b, f) (s_vlog s) = Some vrs -> gc_scan s b f 0 vrs = [] ->
+  s_src (gc_file s b f) = s_src s.
+Proof. exact gc_file_sources. Qed.
+Print Assumptions C11_gc_without_writeback_keeps_sources.
+
+(** the former F4 witness: GC writes the version-1 record back (one record in the newest
+    memtable) and the read of key 1 still returns the version-2 value *)
+Theorem C11_gc_example :
+  (get s11 1 = OV 2) /\ (get (maint_all [MtFlushAll; MtGc 0 0] s11) 1 = OV 2) /\
+  (length (hd (@nil rec) (s_src (maint_all [MtFlushAll; MtGc 0 0] s11))) = 1%nat).
+Proof. exact c11_gc_example. Qed.
+Print Assumptions C11_gc_example.
+
+(** the lost write: the sealed file holds a record no logged record refers to; GC keeps key 1 *)
+Theorem C11_lost_write_example :
+  (fget pair_eqb (0, 0) (s_vlog s_lost) =
+    Some [{| v_key := 1; v_ver := 1; v_vid := 1 |}; {| v_key := 1; v_ver := 2; v_vid := 2 |}]) /\
+  (get s_lost 1 = OV 1) /\ (get (maint_all [MtFlushAll; MtGc 0 0] s_lost) 1 = OV 1).
+Proof. exact c11_lost_write_example. Qed.
+Print Assumptions C11_lost_write_example.
+
+(** non-vacuity of the partial theorem *)
 Theorem C11_example :
   get (maint_all [MtFlushAll; MtMove] s11) 1 = OV 2 /\ forallb (fun m => negb (is_gc m)) [MtFlushAll; MtMove] = true.
 Proof. exact maint_example. Qed.
